@@ -18,7 +18,7 @@
     uint16_t p##CpuToBe16(uint16_t); uint32_t p##CpuToBe32(uint32_t); uint64_t p##CpuToBe64(uint64_t); \
     uint16_t p##LeToCpu16(uint16_t); uint32_t p##LeToCpu32(uint32_t); uint64_t p##LeToCpu64(uint64_t); \
     uint16_t p##BeToCpu16(uint16_t); uint32_t p##BeToCpu32(uint32_t); uint64_t p##BeToCpu64(uint64_t); \
-    int p##selected_big_endian(void); unsigned p##const_calls(uint64_t*, uint64_t*, unsigned char*, unsigned char*, unsigned);
+    int p##selected_big_endian(void); unsigned p##const_calls(uint64_t*, uint64_t*, unsigned char*, unsigned char*, unsigned); unsigned p##argevals(unsigned, const char**);
 DECL(le_) DECL(be_)
 
 static vp_ctx_t g_ctx;
@@ -139,6 +139,13 @@ int main(void)
     if (part == 0) {
         c->outn = 0; o_s(c, "X|{\"width\":"); o_u(c, width); o_s(c, ",\"x\":\"0x0123456789abcdef\",\"native_CpuToBe64_image\":\""); o_x(c, image_be(le_CpuToBe64(0x0123456789abcdefull), 8));
         o_s(c, "\",\"native_CpuToLe64_image\":\""); o_x(c, image_be(le_CpuToLe64(0x0123456789abcdefull), 8)); o_s(c, "\",\"bigendian_branch_CpuToLe64_value\":\""); o_x(c, be_CpuToLe64(0x0123456789abcdefull)); o_s(c, "\"}"); o_end(c);
+    }
+    for (int set = 0; set < 2; set++) {
+        const char* nm = 0; unsigned k;
+        for (unsigned i = 0; (k = set ? be_argevals(i, &nm) : le_argevals(i, &nm)) != 0; i++) {
+            c->evals++;
+            if (k != 1 && vp_viol(c, "byteorder", set ? "bigendian-branch" : "native", nm, "argument-not-evaluated-exactly-once", 0, 0)) { o_s(c, "{\"evaluations\":"); o_u(c, k); o_s(c, "}"); o_end(c); }
+        }
     }
     if (vp_cfg_u64("COUNTNT", 1)) vp_stat(c, "nontrivial", g_nontrivial);
     vp_finish(c, "bomon");
